@@ -21,8 +21,14 @@ vars == <<os, prng, outs, steps>>
 \* toy scale: a "12-word" mnemonic needs 2 symbols of entropy, an "24-word" one 4
 Need(w) == IF w = 12 THEN 2 ELSE 4
 NextPrng(s) == (s + 1) % Cardinality(PrngStates)
+\* sequences of 1..5 symbols, written out (so that the module is also typable by Apalache: spec/Apa_Entropy.tla)
+\* @type: (Int, Int, Int, Int, Int, Int) => Seq(Int);
+Mk(n, a, b, c, d, e) == IF n = 1 THEN <<a>> ELSE IF n = 2 THEN <<a, b>> ELSE IF n = 3 THEN <<a, b, c>>
+                        ELSE IF n = 4 THEN <<a, b, c, d>> ELSE <<a, b, c, d, e>>
+Draws(n) == {Mk(n, a, b, c, d, e) : a \in Symbols, b \in Symbols, c \in Symbols, d \in Symbols, e \in Symbols}
 \* what the seedable generator would hand out for n symbols from state s
-PrngSymbols(s, n) == [i \in 1..n |-> IF (s + i) % 2 = 0 THEN 0 ELSE 3]
+PrngSym(x) == IF x % 2 = 0 THEN 0 ELSE 3
+PrngSymbols(s, n) == Mk(n, PrngSym(s + 1), PrngSym(s + 2), PrngSym(s + 3), PrngSym(s + 4), PrngSym(s + 5))
 
 Init == os = <<>> /\ prng \in PrngStates /\ outs = <<>> /\ steps = 0
 
@@ -35,7 +41,7 @@ PrngDraw == prng' = NextPrng(prng) /\ Tick /\ UNCHANGED <<os, outs>>
 \* entropy is the leading Need(w) symbols of what the OS returned; the seedable generator is untouched
 New(w, extra) ==
   /\ Tick
-  /\ \E draw \in [1..(Need(w) + extra) -> Symbols] :
+  /\ \E draw \in Draws(Need(w) + extra) :
         /\ os' = Append(os, draw)
         /\ outs' = Append(outs, [words |-> w, ent |-> SubSeq(draw, 1, Need(w)), from |-> Len(os) + 1, src |-> "os"])
   /\ prng' = prng
@@ -46,7 +52,7 @@ NewFromPrng(w) ==
   /\ prng' = NextPrng(prng) /\ os' = os
 NewShort(w) ==
   /\ "short" \in Deviations /\ Tick
-  /\ \E draw \in [1..(Need(w) - 1) -> Symbols] :
+  /\ \E draw \in Draws(Need(w) - 1) :
         /\ os' = Append(os, draw)
         /\ outs' = Append(outs, [words |-> w, ent |-> <<0>> \o draw, from |-> Len(os) + 1, src |-> "os"])
   /\ prng' = prng
@@ -60,20 +66,20 @@ Spec == Init /\ [][Next]_vars
 
 ---------------------------------------------------------------------------
 \* at least 32*N/3 bits (Need symbols) are requested from the OS for every new mnemonic
-EnoughBits == \A i \in 1..Len(outs) : outs[i].src = "os" /\ outs[i].from >= 1 /\ Len(os[outs[i].from]) >= Need(outs[i].words)
+EnoughBits == \A i \in DOMAIN outs : outs[i].src = "os" /\ outs[i].from >= 1 /\ Len(os[outs[i].from]) >= Need(outs[i].words)
 
 \* the entropy is determined by the OS symbols drawn for it and by nothing else
-FromOsOnly == \A i \in 1..Len(outs) : outs[i].from >= 1 => outs[i].ent = SubSeq(os[outs[i].from], 1, Need(outs[i].words))
+FromOsOnly == \A i \in DOMAIN outs : outs[i].from >= 1 => outs[i].ent = SubSeq(os[outs[i].from], 1, Need(outs[i].words))
 
 \* creating a mnemonic neither reads nor advances the seedable generator
 NoPrngInfluence == [][(Len(outs') > Len(outs)) => prng' = prng]_vars
 
 \* two new mnemonics never share an OS request
-FreshEachTime == \A i, j \in 1..Len(outs) : i # j => outs[i].from # outs[j].from
+FreshEachTime == \A i, j \in DOMAIN outs : i # j => outs[i].from # outs[j].from
 
 \* every entropy symbol, including the most significant one, takes every value
 \* (a reachability statement: checked as "the negation is violated" by the harness)
-SomeOutHasTopSymbolMax == \E i \in 1..Len(outs) : outs[i].ent[1] = 3
+SomeOutHasTopSymbolMax == \E i \in DOMAIN outs : outs[i].ent[1] = 3
 
 StateConstraint == steps <= MaxSteps
 =============================================================================
